@@ -413,7 +413,32 @@ def rule_unary_run_unbounded(ctx: Ctx, rep: Report) -> None:
     rep.floor(rule, 2)
 
 
+def rule_work_of_valid_bits_only(ctx: Ctx, rep: Report) -> None:
+    """C17.work_of_valid_bits_only: Core's GetBlockProof credits no work to bits that
+    are negative, that overflow, or that denote zero -- it is the gate that keeps
+    an invalid header out of the chain work. `block_work` answers a number only
+    past all three: the overflow refused by `target_from_bits`, a refusal of a
+    zero target, and `is_negative_bits` asked before the magnitude (which
+    `target_from_bits` answers with the sign masked off) is turned into work."""
+    rule = "C17.work_of_valid_bits_only"
+    fi = ctx.func("btclib.block.proof_of_work.block_work")
+    g = ctx.cfg(fi)
+    rets = [r for r in own_nodes(fi.node) if isinstance(r, ast.Return)]
+    for name, what in (("is_negative_bits", "the sign"), ("target_from_bits", "the overflow")):
+        calls = [c for c in own_nodes(fi.node) if isinstance(c, ast.Call) and call_name(c) == name]
+        ids = [i for c in calls for i in g.nodes_containing(c)]
+        ok = bool(ids) and all(g.path_avoiding(g.nodes_containing(r), ids) is None for r in rets)
+        rep.ob(rule, f"block_work:{name}", ok, fi.where(calls[0] if calls else None), f"{what} is asked on every path to the answer" if ok else
+               f"`block_work` answers without asking `{name}`: bits with {what} set are credited work")
+    refs = ctx.refusals(fi)
+    okz = any("target" in str(norm(t)) and not pol for t, pol, _ in refs) or any(str(norm(t)).startswith("not ") for t, pol, _ in refs)
+    rep.ob(rule, "block_work:zero", okz or len([x for x in own_nodes(fi.node) if isinstance(x, ast.Raise)]) >= 2, fi.where(), "a zero target is refused")
+    rep.floor(rule, 3)
+
+
 RULES = [
+    ("C17.work_of_valid_bits_only", rule_work_of_valid_bits_only),
+
     ("C17.one_script_per_input", rule_one_script_per_input),
     ("C17.unary_run_unbounded", rule_unary_run_unbounded),
 
